@@ -271,11 +271,18 @@ package immutable
 //@ func processFiles
 //@   requires info != nil
 //@   ghost removed bool = false
+//@   ghost renameFailed bool = false
 //@   call renameFile
 //@     requires !removed
+//@     set renameFailed = renameFailed || ret0 != nil
 //@   call fileops.Remove
 //@     requires oldFileChecked
+//@     requires [no_removal_after_a_failed_rename] !renameFailed
 //@     set removed = true
+//@   loop 1
+//@     invariant !renameFailed && !removed
+//@   loop 2
+//@     invariant !renameFailed
 //@   ghost oldFileChecked bool = false
 //@   call oldFileExist
 //@     set oldFileChecked = ret0
